@@ -475,6 +475,24 @@ def check_written_down(ctx, rep, rule='C02.N'):
         rep.undecided(rule, key, where(tm, tm.functions['parse_tree']), f"only {reads} newick reads found in the evolution modules (parse_tree's two expected)")
     else:
         rep.ok(rule, key, where(tm, tm.functions['parse_tree']), {'newick_reads': reads})
+    # (2'') the symbols of a sequence are the ones in the file, all of them: the readers strip white space only — a symbol removed at the end of a LINE is removed or kept
+    # depending on where the file wraps its lines, and shifts every later column of that sequence against the others
+    key = 'evolution::sequence-symbols-are-kept-as-read'
+    am = ctx.prog.module('torchtree.evolution.alignment')
+    strips, bad_strip = 0, []
+    for c in ast.walk(am.tree):
+        if isinstance(c, ast.Call) and isinstance(c.func, ast.Attribute) and c.func.attr in ('strip', 'rstrip', 'lstrip'):
+            strips += 1
+            if c.args and not (isinstance(c.args[0], ast.Constant) and isinstance(c.args[0].value, str) and c.args[0].value.strip() == ''):
+                bad_strip.append(c)
+    if bad_strip:
+        rep.bad(rule, key, where(am, bad_strip[0]), {'calls': [ast.unparse(x)[:50] for x in bad_strip]},
+                f"`{ast.unparse(bad_strip[0])[:50]}` removes symbols from the ends of what was read: applied line by line it deletes a column from some sequences only (the ones whose "
+                f"line happens to end there), so the remaining columns are no longer aligned and the likelihood is that of other data")
+    elif strips < 1:
+        rep.undecided(rule, key, where(am, am.functions.get('read_fasta_sequences') or am.tree), 'no strip call found in the sequence readers')
+    else:
+        rep.ok(rule, key, where(am, am.functions.get('read_fasta_sequences') or am.tree), {'strip_calls': strips})
     # (3)
     key = 'evolution::branches-are-the-nodes-with-a-parent'
     hits, filters = [], 0
